@@ -1109,7 +1109,9 @@ func (m *LinearBlockMetadata) populateAllocationRequestUpper(
 
 	// Check next suballocations from second vector for BufferImageGranularity conflicts. Increase alignment if
 	// necessary
-	if m.allocationGranularity > 1 && m.allocationGranularity != int(allocAlignment) && len(secondVector) > 0 {
+	// (an offset aligned to the granularity does not help here: it is the end of this allocation that may share a
+	// page with the next one)
+	if m.allocationGranularity > 1 && len(secondVector) > 0 {
 		var bufferImageGranularityConflict bool
 		for nextSuballocIndex := len(secondVector) - 1; nextSuballocIndex >= 0; nextSuballocIndex-- {
 			nextSuballoc := secondVector[nextSuballocIndex]
@@ -1127,11 +1129,15 @@ func (m *LinearBlockMetadata) populateAllocationRequestUpper(
 		}
 
 		if bufferImageGranularityConflict {
-			// We can't just align down the offset, we have to align down the last byte in the allocation
+			// We can't just align down the offset: the whole allocation has to end before the page that holds the
+			// conflicting allocation, and it still has to satisfy the requested alignment
 			endOffset := resultOffset + allocSize - 1
-			alignedEndOffset := memutils.AlignDown(endOffset, uint(m.allocationGranularity))
-			alignedDiff := endOffset - alignedEndOffset
-			resultOffset = memutils.AlignDown(resultOffset-alignedDiff, uint(m.allocationGranularity))
+			conflictPageStart := memutils.AlignDown(endOffset, uint(m.allocationGranularity))
+			bumpAlignment := uint(m.allocationGranularity)
+			if allocAlignment > bumpAlignment {
+				bumpAlignment = allocAlignment
+			}
+			resultOffset = memutils.AlignDown(conflictPageStart-allocSize, bumpAlignment)
 		}
 	}
 
